@@ -210,9 +210,19 @@ def run_case(args):
     return {"id": i, "kind": "case", "c": c, "obs": obs, "concrete": i}
 
 
+def rep_class(rep):
+    """structural class of the data argument: a float64 buffer esutil can use as it is, a view of one (strides, record
+    field), or something that has to be converted (other element type / byte order, python object)"""
+    if rep in ("f8", "readonly", "zerod", "npf8"):
+        return "native_f8"
+    if rep in ("strided2", "strided3", "reversed", "col2d", "rec12", "rec20"):
+        return "f8_view"
+    return "converted"
+
+
 def struct_class(c):
     lim = ("min" if c["hasmin"] else "") + ("max" if c["hasmax"] else "") or "nolimits"
-    return "%s|%s" % (c["mode"], lim)
+    return "%s|%s|%s" % (c["mode"], lim, rep_class(c.get("rep", "f8")))
 
 
 def _fitting_rep(rng, n, values):
@@ -428,7 +438,7 @@ def judge_histories(ctx, recs, what):
         r = byid[rid]
         for f in failing:
             k, cl = f.split(":", 1)
-            ctx.violation("Binner.history|%s|%s" % (cl, history_class(r["h"], int(k))),
+            ctx.violation("Binner.history|%s|%s|%s" % (cl, history_class(r["h"], int(k)), rep_class(r["h"].get("rep", "f8"))),
                           "what one Binner object holds after call %s of a history is not allowed by Hist.tla: clause %s" % (k, cl),
                           {"kind": "history", "h": r["h"], "id": r["id"], "steps": r["steps"]})
     for r in recs:
